@@ -354,7 +354,8 @@ func (hs *clientHandshakeStateTLS13) processHelloRetryRequest() error {
 		hello.keyShares = []keyShare{{group: curveID, data: key.PublicKey().Bytes()}}
 	}
 
-	if len(hello.pskIdentities) > 0 {
+	// [uTLS] a fake PSK (FakePreSharedKeyExtension) has identities but no session: it is resent as it is
+	if len(hello.pskIdentities) > 0 && hs.session != nil {
 		pskSuite := cipherSuiteTLS13ByID(hs.session.cipherSuite)
 		if pskSuite == nil {
 			return c.sendAlert(alertInternalError)
